@@ -81,7 +81,7 @@ def _bucket(t):
     if len(eds) == 2 and None not in pos:
         d = abs(pos[0] - pos[1])
         key += ("same" if d == 0 else "adjacent" if d == 1 else "apart",)
-        if d == 0 and eds[0]["a"] == "InsertRun" and eds[1]["a"] == "InsertRun":
+        if d == 0 and "run" in eds[0] and "run" in eds[1]:
             key += (eds[0]["run"], eds[1]["run"])
         if d == 0 and "v" in eds[0] and "v" in eds[1]:
             key += (eds[0]["v"], eds[1]["v"]) if eds[0]["a"] == eds[1]["a"] else ("v",)
